@@ -38,6 +38,24 @@ let show = function
   | Panic -> "PANIC"
   | Rejected -> "rejected"
 
+(* one request against a configuration: the model's token and the property's token. Outside the community
+   vocabulary the model is evaluated under both verdicts of Community::from_str; differing results are printed
+   as an alternation of whole tokens *)
+let eval_request_alts (c : config) (r : request) : string list * string list =
+  let unknown = ref false in
+  let leaf dflt v = match comm_vocab v with Some b -> b | None -> (unknown := true; dflt) in
+  let out = match snd (step (leaf true) c (OReq r)) with Some o -> o | None -> failwith "no outcome" in
+  let outs = if !unknown then [out; (match snd (step (leaf false) c (OReq r)) with Some y -> y | None -> out)] else [out] in
+  let alts f = Stdlib.List.sort_uniq compare (Stdlib.List.map (fun o -> show (f o)) outs) in
+  (alts (fun o -> o), alts (fun o -> spec_of r o))
+
+let render_alts = function
+  | [a] -> a
+  | l -> "<" ^ join "|" l ^ ">"     (* "<200|400>,gzip..." is not a token form, so whole tokens are listed *)
+
+let eval_request (c : config) (r : request) : string * string =
+  let (m, s) = eval_request_alts c r in (render_alts m, render_alts s)
+
 let run_case (line : string) : string =
   let ids = Hashtbl.create 8 in
   let next = ref 2 in
@@ -55,22 +73,10 @@ let run_case (line : string) : string =
           OReq { rq_method = n_of_int (int_of_string m); rq_path = unhex p;
                  rq_query = (if q = "-" then None else Some (unhex q)); rq_headers = parse_headers h }
       | _ -> failwith ("bad op: " ^ join " " toks) in
-    let unknown = ref false in
-    let leaf dflt v = match comm_vocab v with Some b -> b | None -> (unknown := true; dflt) in
-    let (c', x) = step (leaf true) !c o in
-    (match o, x with
-     | OReq r, Some out ->
-         let outs = if !unknown then [out; (match snd (step (leaf false) !c o) with Some y -> y | None -> out)] else [out] in
-         let render f =
-           match Stdlib.List.sort_uniq compare (Stdlib.List.map (fun o -> show (f o)) outs) with
-           | [a] -> a
-           | l ->
-               (* alternation over the status only: "<200|400>,gzip..." is not a token form, so list whole tokens *)
-               "<" ^ join "|" l ^ ">" in
-         mo := render (fun o -> o) :: !mo;
-         sp := render (fun o -> spec_of r o) :: !sp
+    (match o with
+     | OReq r -> let (m, s) = eval_request !c r in mo := m :: !mo; sp := s :: !sp
      | _ -> ());
-    c := c' in
+    c := fst (step (fun _ -> true) !c o) in
   Stdlib.List.iter (fun s -> do_op (words s)) (split_on ';' line);
   let m = join " " (Stdlib.List.rev !mo) and s = join " " (Stdlib.List.rev !sp) in
   if m = s then m else m ^ " ||| " ^ s
